@@ -295,6 +295,34 @@ end
 /-- The writer returns (it raises `TypeError` only on a tuple value that is not a list of strings). -/
 def writeOk (d : Doc) : Bool := secsWriteOk d.secs
 
+/-- `isinstance(item, str) and "," in item` -/
+def itemHasComma : J → Bool
+  | .str s => s.toList.contains ','
+  | _ => false
+
+/-- `val and any(isinstance(item, str) and "," in item for item in val)` for one stored value. -/
+def valHasComma : J → Bool
+  | .arr items => items.any itemHasComma
+  | _ => false
+
+/-- `DictWriter.get_properties` raises `ParserException` on this Property: a non-empty n-tuple
+    Property one of whose tuple items contains a comma (the bracketed text form separates the
+    tuples by commas and could not be loaded again). -/
+def propWriteRefused (p : Prp) : Bool :=
+  (match p.dtype with | some dt => dt != "" && isTupleDtype dt | none => false) &&
+    !p.values.isEmpty && p.values.any valHasComma
+
+mutual
+def secWriteRefused : Sec → Bool
+  | .mk _ _ _ _ _ _ _ _ _ _ props secs => props.any propWriteRefused || secsWriteRefused secs
+def secsWriteRefused : List Sec → Bool
+  | [] => false
+  | s :: r => secWriteRefused s || secsWriteRefused r
+end
+
+/-- `DictWriter.to_dict` raises `ParserException` (nothing is written). -/
+def writeRefused (d : Doc) : Bool := secsWriteRefused d.secs
+
 /-! ## Library functions the reader calls (CPython semantics, supplied as parameters) -/
 
 structure Lib where
